@@ -124,8 +124,17 @@ def _tlc_trace_one(specdir, trace, cfg):
             res["generated"] = int(m2.group(1))
     if res["viols"] is None and res["fault"] is None:
         # TLC stopped before the end of the trace: a line no action explains, a TLC runtime error...
-        tail = "\n".join(text.splitlines()[-25:])
-        res["fault"] = "trace not accepted by Trace_API (not a verdict):\n" + tail
+        tail = "\n".join([l for l in text.splitlines() if not l.startswith(("Semantic", "Linting", "Parsing"))][-25:])
+        stuck = ""
+        try:
+            with open(trace) as f:
+                lines = f.read().splitlines()
+            first = 3 + json.loads(lines[0])["nbatch"]
+            li = first - 1 + res["states"] - 1
+            stuck = "\nfirst unexplained line %d: %s" % (li + 1, lines[li][:800])
+        except Exception:
+            pass
+        res["fault"] = "trace not accepted by Trace_API (not a verdict):\n" + tail + stuck
     elif "No error has been found" not in text and res["fault"] is None:
         res["fault"] = "TLC reported an error after the end of the trace:\n" + "\n".join(text.splitlines()[-25:])
     return res
